@@ -21,7 +21,7 @@ EXPLANATION = (
     'anchor of every assignment/walrus/import binding is the end of its value expression and of every '
     'for/with/except target the start of the body. The precision of get_expr_end itself (last visited '
     'node vs textually last node) and escapes (return/raise ending a region) are NOT decided here.'
-    ' Later additions: the lookups are interpreted on the rebuilt region graphs (nothing the graph hides may be found, certainty must agree); conditions are refined on demand (and / or chains with both operators: the branch taken when a chain holds starts after its last operand).')
+    ' Later additions: the lookups are interpreted on the rebuilt region graphs (nothing the graph hides may be found, certainty must agree); conditions are refined on demand (and / or chains with both operators: the branch taken when a chain holds starts after its last operand). R1 also compares joint dominance: two blocks that together lie on every route to a reader although neither does alone (a name bound in each of them is certainly defined there).')
 TECHNIQUE = ('region-template extraction by abstract interpretation + reaching-definition/dominance comparison '
              'with reference CFG templates + abstract interpretation of the resolution functions')
 
